@@ -18,6 +18,8 @@ P2E = {
     "s4": [None, [[-1, -1, 0], [5, 3, -1]], []],
     "s5": [None, [[2, -1], [-1, 3], [2, 2]]],
     "s6": [None, [], [[1, 2], [-1, -1], [0, 0]]],
+    "s7": [None, [], [[-1, 1], [3, -1]]],
+    "s8": [None, [[-1, -1], [7, 0]], []],
 }
 
 
@@ -66,7 +68,14 @@ def drive(rep, kinds, hists, seed, tag, per_kind):
             p2e = P2E[name][(j // len(P2E) + j) % len(P2E[name])]
             h = hists[(j * 7 + n) % len(hists)]
             ep = D.Episode(kind, name, p2e, seed + j)
+            nfail = 0
             for step in h:
+                if kind == "dehb" and step["a"] == "Fail":
+                    # DEHB needs three valid parents for its mutation step and gives up with an assertion when nearly all
+                    # trials have failed (recorded under C13); the suggestion properties are judged with <= 1 failure
+                    nfail += 1
+                    if nfail > 1:
+                        continue
                 ep.step(step)
             traces.append(ep.trace(len(traces) + 1))
             meta.append({"kind": kind, "space": name, "p2e": p2e, "seed": seed + j, "history": h})
@@ -108,7 +117,7 @@ def run(rep, tier, seed):
     )
     model_check(rep)
     hists = histories(seed * 31 + 5, 60 if tier == "quick" else 400, 18 if tier == "quick" else 26)
-    fast = ["fifo_random", "fifo_grid", "hb_random", "hb_random_promo", "synchb", "dehb", "pbt", "regevo"]
+    fast = ["fifo_random", "fifo_random_dup", "fifo_grid", "hb_random", "hb_random_promo", "synchb", "dehb", "pbt", "regevo"]
     total = drive(rep, fast, hists, seed * 100, "model-free", 40 if tier == "quick" else 400)
     gp = ["fifo_bayesopt", "hb_bayesopt", "hb_hypertune"]
     c2 = drive(rep, gp, hists, seed * 100 + 7, "gp", 4 if tier == "quick" else 40)
